@@ -3,9 +3,11 @@ package worlds
 import (
 	"encoding/json"
 	"fmt"
+	"reflect"
 	"sort"
 	"strings"
 	"time"
+	"unsafe"
 
 	"github.com/SAP/go-dblib/namepool"
 	"github.com/SAP/go-dblib/zz_verif/simrt"
@@ -26,6 +28,11 @@ type c18Plan struct {
 	// MoreFormats: further pools of the same process (a task's name variable i belongs to pool i mod #pools).
 	MoreFormats []string  `json:"more_formats,omitempty"`
 	Progs       [][]c18Op `json:"progs"`
+	// Jump > 0: a pool that has been in use for a very long time - the root first acquires Early names (held to the
+	// end), then the id counter of every pool is put forward to Jump (through reflection: minting four billion ids
+	// one by one is not an option), then the tasks start. Ids stay unique and non-zero however many were minted.
+	Jump  uint64 `json:"jump,omitempty"`
+	Early int    `json:"early,omitempty"`
 }
 
 type c18 struct{}
@@ -120,6 +127,10 @@ func (c18) Gen(r *Rand, idx int, tier string) interface{} {
 		}
 		p.Progs = append(p.Progs, prog)
 	}
+	if r.Pct(6) {
+		p.Jump = Pick(r, []uint64{1<<8 - 2, 1<<15 - 2, 1<<16 - 3, 1<<31 - 2, 1<<32 - 3, 1<<32 - 1, 1<<53 - 1, 1<<63 - 2}) - uint64(r.Intn(3))
+		p.Early = 1 + r.Intn(4)
+	}
 	return p
 }
 
@@ -154,7 +165,44 @@ func (c18) Shrink(plan interface{}) []interface{} {
 		q.Format = "%d"
 		out = append(out, &q)
 	}
+	if p.Early > 1 {
+		q := *p
+		q.Early--
+		out = append(out, &q)
+	}
 	return out
+}
+
+// c18SetCounter puts the id counter of a pool forward (field idCounter: an unsigned integer or a sync/atomic
+// integer type). The value is stored modulo the width of the field - that is what the counter would hold after so
+// many increments. It returns false if the pool has no such field (the probe then stays at zero).
+func c18SetCounter(pl interface{}, to uint64) bool {
+	rv := reflect.ValueOf(pl)
+	if rv.Kind() != reflect.Ptr || rv.Elem().Kind() != reflect.Struct {
+		return false
+	}
+	f := rv.Elem().FieldByName("idCounter")
+	if !f.IsValid() {
+		return false
+	}
+	if f.Kind() == reflect.Struct && f.NumField() > 0 {
+		f = f.Field(f.NumField() - 1) // atomic.Uint32 / atomic.Uint64: the value is the last field
+	}
+	if !f.CanAddr() {
+		return false
+	}
+	ptr := unsafe.Pointer(f.UnsafeAddr())
+	switch f.Kind() {
+	case reflect.Uint64, reflect.Int64, reflect.Uint, reflect.Int, reflect.Uintptr:
+		*(*uint64)(ptr) = to
+	case reflect.Uint32, reflect.Int32:
+		*(*uint32)(ptr) = uint32(to)
+	case reflect.Uint16, reflect.Int16:
+		*(*uint16)(ptr) = uint16(to)
+	default:
+		return false
+	}
+	return true
 }
 
 type c18Hold struct {
@@ -182,6 +230,8 @@ func (c18) Run(plan interface{}, schedSeed uint64, replay []simrt.Choice, lenien
 	for i := range res {
 		res[i] = &taskRes{}
 	}
+	early := &taskRes{}
+	jumped := false
 
 	out := s.Run(func() {
 		type namePool interface {
@@ -195,6 +245,20 @@ func (c18) Run(plan interface{}, schedSeed uint64, replay []simrt.Choice, lenien
 		}
 		pool := pools[0]
 		var ts []*simrt.Task
+		if p.Jump > 0 {
+			for i := 0; i < p.Early; i++ {
+				call := simrt.Record("acq-call", "", "", 0)
+				n := pool.Acquire()
+				h := &c18Hold{id: n.ID(), text: n.Name(), task: "root", to: -1, acqCall: call, pool: 0}
+				h.from = simrt.Record("acq-ret", h.text, "", int64(h.id))
+				early.holds = append(early.holds, h)
+			}
+			for _, pl := range pools {
+				if c18SetCounter(pl, p.Jump) {
+					jumped = true
+				}
+			}
+		}
 		for ti := range p.Progs {
 			ti := ti
 			ts = append(ts, simrt.Spawn(fmt.Sprintf("c%d", ti), func() {
@@ -294,8 +358,11 @@ func (c18) Run(plan interface{}, schedSeed uint64, replay []simrt.Choice, lenien
 		v.Violate("race", "race", "the race detector reported %d race(s) on this schedule", out.Races)
 	}
 
+	if jumped {
+		v.Probe("id-counter-put-forward")
+	}
 	var all []*c18Hold
-	for _, tr := range res {
+	for _, tr := range append(res, early) {
 		for _, e := range tr.errs {
 			v.Violate("wrong-value", "name-state", "%s", e)
 		}
@@ -335,7 +402,9 @@ func (c18) Run(plan interface{}, schedSeed uint64, replay []simrt.Choice, lenien
 			if a.id == b.id {
 				v.Violate("duplicate-id", "duplicate-id", "id %d held by %s (events %d..%d) and by %s (events %d..%d) at the same time",
 					a.id, a.task, a.from, a.to, b.task, b.from, b.to)
-			} else if a.text == b.text {
+			} else if a.text == b.text && fmt.Sprintf(formats[a.pool], a.id) != fmt.Sprintf(formats[a.pool], b.id) {
+				// (a format that maps both ids to the same text - %c or %q of numbers that are no code points -
+				// leaves no choice: the text must be the format applied to the id)
 				v.Violate("duplicate-text", "duplicate-text", "text %q held twice at the same time (ids %d, %d)", a.text, a.id, b.id)
 			}
 		}
